@@ -508,10 +508,21 @@ func convertStringToTv(schemaType *sdcpb.SchemaLeafType, v string, ts uint64) (*
 			Timestamp: ts,
 			Value:     &sdcpb.TypedValue_StringVal{StringVal: v},
 		}, nil
+	case "empty":
+		return &sdcpb.TypedValue{
+			Timestamp: ts,
+			Value:     &sdcpb.TypedValue_EmptyVal{},
+		}, nil
+	case "binary", "bits", "instance-identifier":
+		// carried in their lexical representation
+		return &sdcpb.TypedValue{
+			Timestamp: ts,
+			Value:     &sdcpb.TypedValue_StringVal{StringVal: v},
+		}, nil
 	case "": // presence ?
 		return &sdcpb.TypedValue{}, nil
 	}
-	return nil, nil
+	return nil, fmt.Errorf("unable to convert %q to type %q", v, schemaType.GetType())
 }
 
 func getItem(ctx context.Context, s string, cs *sdcpb.SchemaElem_Container, scb SchemaClientBound) (any, bool) {
